@@ -296,7 +296,7 @@ ImplHasLegalMoves(b, EpFix) ==
 (* The refinement obligations between the two layers (checked by TLC on    *)
 (* bounded models, see MC_Impl.tla).                                       *)
 (***************************************************************************)
-Obl_Make(b, m) ==          \* C03 + C05 at the design level
+Obl_Make(b, m) ==          \* C03 + C05 at the design level (m may be the null move)
   LET res == DoMake(b, m).board IN
   /\ res.r = ApplyMove(b.r, m)
   /\ Consistent(res)
